@@ -85,11 +85,13 @@ func genSize(r *rand.Rand, quick bool) int {
 		return 1 + r.Intn(64)
 	case p < 75:
 		return 65 + r.Intn(8*1024)
-	case p < 93:
-		return 8*1024 + r.Intn(120*1024)
+	case p < 90:
+		return 8*1024 + r.Intn(56*1024)
+	case p < 97:
+		return 64*1024 + r.Intn(96*1024)
 	default:
 		if quick && r.Intn(3) != 0 {
-			return 128*1024 + r.Intn(128*1024)
+			return 160*1024 + r.Intn(96*1024)
 		}
 		return 256*1024 + r.Intn(768*1024+1) // up to 1 MiB
 	}
@@ -152,6 +154,9 @@ func genCase(r *rand.Rand, id int, quick bool) caseSpec {
 	if c.Retry {
 		c.Limit = r.Intn(6)
 		c.Backoff = []string{"scripted", "scripted", "lib-constant"}[r.Intn(3)]
+		if c.Backoff == "lib-constant" && c.Limit == 0 {
+			c.Limit = 1 + r.Intn(5) // backoff.WithMaxRetries(b, 0) means "no limit"
+		}
 		if r.Intn(3) == 0 {
 			// extra retry codes; a code that is also accepted is a contradictory
 			// configuration outside the statement and is not generated.
@@ -316,11 +321,14 @@ type cliAttempt struct {
 	Err        string      `json:"err,omitempty"`
 	SrvIndex   int         `json:"server_attempt"` // X-Attempt of the response, -1 if none
 
-	mu       sync.Mutex
-	read     int64
-	sawEOF   bool
-	readErr  string
-	mismatch bool
+	mu        sync.Mutex
+	read      int64
+	sawEOF    bool
+	shared    bool // every chunk continued the stream that earlier attempts had already partly consumed
+	overlap   bool // another attempt's body was read while this one was still being read
+	done      bool
+	readErr   string
+	mismatch  bool
 	afterStop bool
 }
 
@@ -330,17 +338,21 @@ type cliAttemptView struct {
 	BodySawEOF    bool   `json:"body_saw_eof"`
 	BodyReadErr   string `json:"body_read_err,omitempty"`
 	BodyMismatch  bool   `json:"body_mismatch"`
+	BodyShared    bool   `json:"body_continues_consumed_stream"`
+	BodyOverlap   bool   `json:"body_read_concurrently_with_other_attempt"`
 	AfterStop     bool   `json:"after_backoff_stop"`
 }
 
 type caseLog struct {
-	mu      sync.Mutex
-	spec    caseSpec
-	orig    []byte
-	srv     []*srvAttempt
-	cli     []*cliAttempt
-	stopped bool // the back-off returned Stop
-	stray   int
+	mu       sync.Mutex
+	spec     caseSpec
+	orig     []byte
+	srv      []*srvAttempt
+	cli      []*cliAttempt
+	stopped  bool       // the back-off returned Stop
+	bodyMu   sync.Mutex // serializes reads of request bodies (see countingBody.Read)
+	consumed int64      // bytes read from request bodies by all attempts so far
+	stray    int
 }
 
 // countingBody observes what the body of one attempt yields.
@@ -348,28 +360,65 @@ type countingBody struct {
 	rc   io.ReadCloser
 	orig []byte
 	a    *cliAttempt
+	l    *caseLog
 }
 
 func (c *countingBody) Read(p []byte) (int, error) {
+	// The helper under test may hand the same underlying reader to several
+	// attempts, and the transport's write loop of an abandoned attempt can
+	// still be reading it when the next attempt starts. Reads are serialized
+	// here so that the monitor keeps observing (and reports) instead of
+	// tripping the race detector inside bytes.Buffer.
+	l := c.l
+	l.bodyMu.Lock()
+	defer l.bodyMu.Unlock()
+	l.mu.Lock()
+	others := append([]*cliAttempt(nil), l.cli...)
+	l.mu.Unlock()
+	overlap := false
+	for _, o := range others {
+		if o != c.a {
+			o.mu.Lock()
+			if o.read > 0 && !o.done && o.HasBody {
+				overlap = true
+			}
+			o.mu.Unlock()
+		}
+	}
 	n, err := c.rc.Read(p)
 	c.a.mu.Lock()
+	if overlap {
+		c.a.overlap = true
+	}
 	if n > 0 {
 		end := c.a.read + int64(n)
 		if end > int64(len(c.orig)) || !bytes.Equal(p[:n], c.orig[c.a.read:end]) {
 			c.a.mismatch = true
 		}
+		gend := l.consumed + int64(n)
+		if gend > int64(len(c.orig)) || !bytes.Equal(p[:n], c.orig[l.consumed:gend]) {
+			c.a.shared = false
+		}
+		l.consumed = gend
 		c.a.read = end
 	}
 	if err == io.EOF {
 		c.a.sawEOF = true
+		c.a.done = true
 	} else if err != nil {
 		c.a.readErr = err.Error()
+		c.a.done = true
 	}
 	c.a.mu.Unlock()
 	return n, err
 }
 
-func (c *countingBody) Close() error { return c.rc.Close() }
+func (c *countingBody) Close() error {
+	c.a.mu.Lock()
+	c.a.done = true
+	c.a.mu.Unlock()
+	return c.rc.Close()
+}
 
 type recTransport struct {
 	base http.RoundTripper
@@ -380,7 +429,7 @@ func (rt *recTransport) RoundTrip(req *http.Request) (*http.Response, error) {
 	l := rt.log
 	a := &cliAttempt{
 		Method: req.Method, URL: req.URL.String(), Header: req.Header.Clone(),
-		ContentLen: req.ContentLength, HasBody: req.Body != nil && req.Body != http.NoBody, SrvIndex: -1,
+		ContentLen: req.ContentLength, HasBody: req.Body != nil && req.Body != http.NoBody, SrvIndex: -1, shared: true,
 	}
 	l.mu.Lock()
 	a.Index = len(l.cli)
@@ -389,7 +438,7 @@ func (rt *recTransport) RoundTrip(req *http.Request) (*http.Response, error) {
 	l.mu.Unlock()
 	req2 := req.WithContext(req.Context()) // shallow copy; RoundTrippers must not modify req
 	if a.HasBody {
-		req2.Body = &countingBody{rc: req.Body, orig: l.orig, a: a}
+		req2.Body = &countingBody{rc: req.Body, orig: l.orig, a: a, l: l}
 	}
 	resp, err := rt.base.RoundTrip(req2)
 	a.mu.Lock()
@@ -437,14 +486,14 @@ func (b *countBackoff) Reset() { b.n = 0 }
 // worker: one server + one transport pair, cases run sequentially
 
 type worker struct {
-	t      *testing.T
-	srv    *httptest.Server
-	tmp    string
-	mu     sync.Mutex
-	cur    *caseLog
-	prefix string
-	trKA   *http.Transport
-	trNoKA *http.Transport
+	t        *testing.T
+	srv      *httptest.Server
+	tmp      string
+	mu       sync.Mutex
+	cur      *caseLog
+	prefix   string
+	trKA     *http.Transport
+	trNoKA   *http.Transport
 	inflight sync.WaitGroup
 }
 
@@ -694,8 +743,14 @@ func judge(res *result, baseURL string) (viol []violation, helperAttempts int, v
 	}
 	helperAttempts = len(l.cli)
 	for _, a := range l.cli {
+		if strings.Contains(a.Err, "Client.Timeout") || strings.Contains(a.Err, "deadline exceeded") {
+			// the 60 s client timeout fired (overloaded machine): the attempt was cut by the harness environment
+			return nil, -1, nil
+		}
+	}
+	for _, a := range l.cli {
 		a.mu.Lock()
-		v := cliAttemptView{cliAttempt: a, BodyBytesRead: a.read, BodySawEOF: a.sawEOF, BodyReadErr: a.readErr, BodyMismatch: a.mismatch, AfterStop: a.afterStop}
+		v := cliAttemptView{cliAttempt: a, BodyBytesRead: a.read, BodySawEOF: a.sawEOF, BodyReadErr: a.readErr, BodyMismatch: a.mismatch, BodyShared: a.shared && a.Index > 0, BodyOverlap: a.overlap, AfterStop: a.afterStop}
 		view = append(view, v)
 		which := "first"
 		if a.Index > 0 {
@@ -718,10 +773,13 @@ func judge(res *result, baseURL string) (viol []violation, helperAttempts int, v
 			add(which+"-attempt-without-body", "attempt %d carries no body, original has %d bytes", a.Index, n)
 		case a.readErr != "":
 			add(which+"-attempt-body-unreadable", "attempt %d: reading the request body failed after %d of %d bytes: %s", a.Index, a.read, n, a.readErr)
+		case a.Index > 0 && a.read > 0 && a.mismatch && a.shared:
+			// the body is the reader an earlier attempt already consumed in part: it resumes in the middle
+			add(which+"-attempt-body-incomplete", "attempt %d body resumes in the middle of the original (earlier attempts consumed the beginning); %d bytes read, eof=%v", a.Index, a.read, a.sawEOF)
+		case a.HasBody && a.sawEOF && a.read < n:
+			add(which+"-attempt-body-incomplete", "attempt %d body ended after %d of %d bytes", a.Index, a.read, n)
 		case a.mismatch:
 			add(which+"-attempt-body-differs", "attempt %d body bytes differ from the original", a.Index)
-		case a.HasBody && a.sawEOF && a.read < n:
-			add(which+"-attempt-body-truncated", "attempt %d body ended after %d of %d bytes", a.Index, a.read, n)
 		}
 		if a.afterStop {
 			add("attempt-after-backoff-stop", "attempt %d was made after the back-off returned Stop", a.Index)
@@ -756,10 +814,10 @@ func judge(res *result, baseURL string) (viol []violation, helperAttempts int, v
 			continue
 		}
 		if s.BodyRead && !s.bodyEqual {
-			add(which+"-attempt-wrong-body-on-wire", "server attempt %d received a complete body of %d bytes (sum %s), original %d bytes (sum %s)", s.Index, s.BodyLen, s.BodySum, n, sum(l.orig))
+			add(which+"-attempt-incomplete-body-on-wire", "server attempt %d received a cleanly ended body of %d bytes (sum %s), original %d bytes (sum %s)", s.Index, s.BodyLen, s.BodySum, n, sum(l.orig))
 		}
 		if !s.BodyRead {
-			add(which+"-attempt-truncated-on-wire", "server attempt %d: body ended with %q after %d of %d bytes", s.Index, s.BodyReadErr, s.BodyLen, n)
+			add(which+"-attempt-incomplete-body-on-wire", "server attempt %d: body ended with %q after %d of %d bytes", s.Index, s.BodyReadErr, s.BodyLen, n)
 		}
 	}
 	if res.ok {
@@ -804,6 +862,7 @@ type outcome struct {
 	errText     string
 	stray       int
 	wall        time.Duration
+	overlap     bool
 }
 
 func TestC34(t *testing.T) {
@@ -818,7 +877,7 @@ func TestC34(t *testing.T) {
 	run.Assume("configurations where a code is both accepted and an extra retry code are contradictory and not generated")
 
 	r := run.Rand("cases")
-	n := run.N(900, 50000)
+	n := run.N(900, 20000)
 	cases := make([]caseSpec, n)
 	for i := range cases {
 		cases[i] = genCase(r, i, run.Quick())
@@ -843,6 +902,9 @@ func TestC34(t *testing.T) {
 				viol, attempts, view := judge(res, w.srv.URL)
 				o := &outcome{spec: res.spec, viol: viol, attempts: attempts, srvAttempts: len(res.log.srv),
 					ok: res.ok, errKind: res.errKind, errText: res.errText, stray: res.log.stray, wall: res.wall}
+				for _, v := range view {
+					o.overlap = o.overlap || v.BodyOverlap
+				}
 				keep := false
 				for _, v := range viol {
 					kept[v.Sig]++
@@ -864,11 +926,22 @@ func TestC34(t *testing.T) {
 	}
 	wg.Wait()
 
+	dropped := 0
+	defer func() {
+		if dropped*100 > n {
+			run.Inconclusive(fmt.Sprintf("%d of %d cases hit the 60 s client timeout and were not judged", dropped, n))
+		}
+	}()
 	for i, o := range outcomes {
 		if o == nil {
 			continue
 		}
 		c := o.spec
+		if o.attempts < 0 {
+			dropped++
+			run.Count("cases_dropped_client_timeout", 1)
+			continue
+		}
 		nontrivial := o.attempts >= 2 || retryProvoking(c)
 		run.Case(ev.JSON(c), nontrivial)
 		run.Count("helper_attempts", int64(o.attempts))
@@ -888,8 +961,12 @@ func TestC34(t *testing.T) {
 		if o.stray > 0 {
 			run.Count("stray_requests", int64(o.stray))
 		}
-		if o.wall > 30*time.Second {
-			run.Inconclusive(fmt.Sprintf("case %d took %s (client timeout?)", i, o.wall))
+		if o.overlap {
+			run.Count("cases_where_retry_read_body_while_previous_attempt_still_read_it", 1)
+		}
+		if o.wall > 5*time.Second {
+			run.Count("cases_slower_than_5s", 1)
+			t.Logf("slow case %d: %s attempts=%d srv=%d %s", i, o.wall, o.attempts, o.srvAttempts, ev.JSON(c))
 		}
 		run.Distinct("body_kind_x_attempts", fmt.Sprintf("%s/%d", c.BodyKind, o.attempts))
 		if run.WantSample() && i%151 == 0 {
